@@ -6,6 +6,7 @@ from .common import (Ob, AnalysisError, call_name, dotted, kwarg, get_arg, names
                      contains_nf, calls_in, calls_named, method_calls_on, floor, norm_guards, const_value, KINDS, ARITY,
                      kind_of, is_self_attr, fmt_slots)
 from verif_sa.pe import P, Normalizer, decision_list, first_difference
+from .common import eq_const
 
 
 def _sym_check(fn, ident, swapped, normalizer):
@@ -261,7 +262,7 @@ def D3_angle_styles(repo, clause):
         mine = []
         for test, body in arms:
             conj = test.values if isinstance(test, ast.BoolOp) and isinstance(test.op, ast.And) else [test]
-            eqs = [c for c in conj if isinstance(c, ast.Compare) and isinstance(c.ops[0], ast.Eq) and ast.unparse(c.left) == var and const_value(c.comparators[0]) == v]
+            eqs = [c for c in conj if isinstance(c, ast.Compare) and eq_const(c) is not None and eq_const(c)[2] and ast.unparse(eq_const(c)[0]) == var and eq_const(c)[1] == v]
             if eqs:
                 mine.append((test, body, len(conj) == 1))
         total = any(u for _, _, u in mine) or bool(tail)
@@ -272,8 +273,9 @@ def D3_angle_styles(repo, clause):
     arm_lits = set()
     for test, body in arms:
         for c in ast.walk(test):
-            if isinstance(c, ast.Compare) and isinstance(c.ops[0], ast.Eq) and ast.unparse(c.left) == var:
-                arm_lits.add(const_value(c.comparators[0]))
+            e = eq_const(c) if isinstance(c, ast.Compare) else None
+            if e is not None and e[2] and ast.unparse(e[0]) == var:
+                arm_lits.add(e[1])
     obs.append(Ob("D3", clause, fn, t, arm_lits == set(lits), "branch literals %s = membership list %s" % (sorted(arm_lits), sorted(lits)), slot="angle-literal-sets"))
     # styles returned vs. styles formatted
     from verif_sa.pe import decision_list as dl_
@@ -285,8 +287,9 @@ def D3_angle_styles(repo, clause):
     fmt = repo.fn("angle2lammpsdat")
     handled = {}
     for n in fmt.own_nodes():
-        if isinstance(n, ast.If) and isinstance(n.test, ast.Compare) and isinstance(n.test.ops[0], ast.Eq) and isinstance(n.test.comparators[0], ast.Constant):
-            s = n.test.comparators[0].value
+        e_ = eq_const(n.test) if isinstance(n, ast.If) and isinstance(n.test, ast.Compare) else None
+        if e_ is not None and e_[2] and isinstance(e_[1], str):
+            s = e_[1]
             for r in n.body:
                 if isinstance(r, ast.Return) and isinstance(r.value, ast.BinOp) and isinstance(r.value.op, ast.Mod) and isinstance(r.value.left, ast.Constant):
                     handled[s] = fmt_slots(r.value.left.value)
